@@ -528,13 +528,21 @@ def run(ctx):
         chb = hs.thb_to_hb() @ c if hs.truncate else c
         add('lvlw %s %s' % (sp, plist(chb.tolist(), frac)),
             lambda c=c: [f.coeffs.ravel() for f in hs.coeffs_to_levelwise_funcs(c)], ('lvlw', desc, L, c.tolist()))
-        # boundary map
-        if hs.dim == 2:
+        # boundary(): index map and the per-level index sets of the boundary space, every face
+        if hs.dim >= 2:
             dims = [[int(n) for n in hs.mesh(l).numdofs] for l in range(L)]
-            for ax in range(2):
+            ID = hs.deactivated_indices()
+            IAs = plist(IA, lambda a: plist(int(i) for i in a)); IDs = plist(ID, lambda a: plist(int(i) for i in a))
+            for ax in range(hs.dim):
                 for side in range(2):
-                    add('bdmap %s %s %d %d' % (plist(IA, lambda a: plist(int(i) for i in a)), plist(dims, plist), ax, side),
+                    add('bdmap %s %s %d %d' % (IAs, plist(dims, plist), ax, side),
                         lambda ax=ax, side=side: plist(int(i) for i in hs.boundary((ax, side))[1]), ('bdmap', desc, L, ax, side))
+
+                    def fb(ax=ax, side=side):
+                        bhs = hs.boundary((ax, side))[0]
+                        a = bhs.active_indices(); d = bhs.deactivated_indices()
+                        return [(plist(int(i) for i in a[l]), plist(int(i) for i in d[l])) for l in range(bhs.numlevels)]
+                    add('bdspace %s %s %s %d %d' % (IAs, IDs, plist(dims, plist), ax, side), fb, ('bdspace', desc, L, ax, side))
         hier_cases.append((hs, desc))
 
     # prolongate_to pairs
@@ -636,6 +644,12 @@ def run(ctx):
                         bad = 'level %d coefficient vector differs' % q
                 if len(parts) != len(e):
                     bad = 'number of levels differs'
+            elif kind == 'bdspace':
+                lv = [tuple(x.strip() for x in part.split(';')) for part in g.split(' | ')]
+                if lv[:len(e)] != [tuple(x) for x in e]:
+                    bad = 'index sets of the boundary space differ: implementation %s, model %s' % (str(e)[:120], str(lv)[:120])
+                elif any(x[0] != '0' for x in lv[len(e):]):
+                    bad = 'boundary() cropped a level that still carries active functions on the face: model %s' % str(lv[len(e):])[:120]
             elif kind == 'bdmap':
                 if g != e:
                     bad = 'boundary index map: implementation %s, model %s' % (e[:80], g[:80])
@@ -729,7 +743,7 @@ def search(ctx, m, e=None):
             return (None, 'tensor-product prolongation factor of the hierarchical mesh (level %d, axis %d): %s' % (m[5], m[6], d)) if d else None
         if kind == 'prolto':
             return oracle_pair(m[2], m[3])
-        if kind in ('repfine', 'repfine-rows', 'trunc1', 'thb2hb', 'hb2thb', 'vprol', 'lvlw', 'bdmap'):
+        if kind in ('repfine', 'repfine-rows', 'trunc1', 'thb2hb', 'hb2thb', 'vprol', 'lvlw', 'bdmap', 'bdspace'):
             return None   # decided by oracle_space below (runs on every space anyway)
     except Exception as ex:
         return (None, 'implementation raised %s: %s' % (type(ex).__name__, str(ex)[:200]))
